@@ -19,9 +19,9 @@ PROP = dict(
     level_note=("partial: the kernel's rename/O_EXCL atomicity and what fsync guarantees on power loss are assumptions of the file-system model (tested by kill injection, not proved); "
                 "a kill INSIDE one write cannot be produced from outside the kernel and is covered by the theorem and the all-writes-go-to-the-temporary clause only. "
                 "Trusted: Coq kernel+VM, strace (recording and injection), the harness's abstraction of system calls to model operations."),
-    rule=("per kind of mutating call (create, first put, new version, activate, delete-version, delete) 1-2 seed-derived pre-states (thorough: 8): one traced baseline run, one kill run "
+    rule=("per kind of mutating call (create, first put, new version, activate, delete-version, delete) 3 seed-derived pre-states (thorough: 8; creation: 1): one traced baseline run, one kill run "
           "per system call of the save touching the state directory plus one after the last, one fault run per such call and errno (EIO; ENOSPC for openat/write/fsync/renameat; "
-          "thorough adds EACCES, EINTR); plus 150 (thorough 10000) histories of 6-30 calls with 35% refused saves. A kill/fault run is counted only if strace reports the injection "
+          "thorough adds EACCES, EINTR); plus 300 (thorough 10000) histories of 6-30 calls with 35% refused saves. A kill/fault run is counted only if strace reports the injection "
           "on the intended call; non-trivial = a kill run, a fault run in which the call reported an error and was retried, a history reaching a rollback branch; distinct by run description"),
     explain=("the system calls of a save leave the verified atomic-replace protocol, or the database file after a kill / the state served, WriteGen, directory or retried call after an "
              "injected I/O error differ from the model (complete pre-call or post-call state; error => everything is the pre-call state and the call can be repeated)"),
